@@ -63,10 +63,17 @@ pub enum Dec {
     SkipPastChecked,   // [lit,"tail"]: get(..,[1]) must find "tail" behind the literal
     SkipPastUnchecked, // same through get_unchecked (well-formed input only)
     SkipPastObjUnchecked, // {"s":lit,"v":"tail"} get_unchecked(["v"])
+    /// the literal is decoded right after another string of the same document went through the
+    /// decoder's scratch buffer (state carried from one string to the next)
+    AfterEscString,      // ["k\tv",lit] as (String, String)
+    AfterEscStreamValue, // 0 ["k\tv",lit] second stream document as Value (copy parser)
     LossyValue,
     LossyString,
     LossyStreamValue,
     LossyKey,
+    LossyAfterEscString,      // ["k\tv",lit] as (String, String), lossy
+    LossyAfterRepairedString, // ["<0xff>",lit] as (String, String), lossy
+    LossyAfterEscStreamValue, // 0 ["k\tv",lit] second stream document as Value, lossy
 }
 
 pub const STRICT: &[Dec] = &[
@@ -89,8 +96,18 @@ pub const STRICT: &[Dec] = &[
     Dec::SkipPastChecked,
     Dec::SkipPastUnchecked,
     Dec::SkipPastObjUnchecked,
+    Dec::AfterEscString,
+    Dec::AfterEscStreamValue,
 ];
-pub const LOSSY: &[Dec] = &[Dec::LossyValue, Dec::LossyString, Dec::LossyStreamValue, Dec::LossyKey];
+pub const LOSSY: &[Dec] = &[
+    Dec::LossyValue,
+    Dec::LossyString,
+    Dec::LossyStreamValue,
+    Dec::LossyKey,
+    Dec::LossyAfterEscString,
+    Dec::LossyAfterRepairedString,
+    Dec::LossyAfterEscStreamValue,
+];
 
 fn e<T>(r: sonic_rs::Result<T>) -> Result<T, Obs> {
     r.map_err(|e| Obs::Err(e.to_string().lines().next().unwrap_or("").to_string()))
@@ -136,6 +153,21 @@ pub fn wrap(dec: Dec, lit: &[u8], out: &mut Vec<u8>) {
         Dec::LossyStreamValue => {
             out.extend_from_slice(b"0 ");
             out.extend_from_slice(lit);
+        }
+        Dec::AfterEscString | Dec::LossyAfterEscString => {
+            out.extend_from_slice(b"[\"k\\tv\",");
+            out.extend_from_slice(lit);
+            out.extend_from_slice(b"]");
+        }
+        Dec::LossyAfterRepairedString => {
+            out.extend_from_slice(b"[\"r\xffs\",");
+            out.extend_from_slice(lit);
+            out.extend_from_slice(b"]");
+        }
+        Dec::AfterEscStreamValue | Dec::LossyAfterEscStreamValue => {
+            out.extend_from_slice(b"0 [\"k\\tv\",");
+            out.extend_from_slice(lit);
+            out.extend_from_slice(b"]");
         }
     }
 }
@@ -266,6 +298,34 @@ pub fn decode(dec: Dec, text: &[u8]) -> Option<Obs> {
                 let v: HashMap<String, u8> = e(de.deserialize())?;
                 own(v.keys().next().ok_or(Obs::Err("empty map".into()))?)
             }
+            Dec::AfterEscString => {
+                let v: (String, String) = e(sonic_rs::from_slice(text))?;
+                if v.0 != "k\tv" {
+                    return Err(Obs::Err(format!("first string of the pair decoded as {:?}", v.0)));
+                }
+                own(&v.1)
+            }
+            Dec::LossyAfterEscString | Dec::LossyAfterRepairedString => {
+                let mut de = Deserializer::from_slice(text).utf8_lossy();
+                let v: (String, String) = e(de.deserialize())?;
+                let want = if dec == Dec::LossyAfterEscString { "k\tv" } else { "r\u{fffd}s" };
+                if v.0 != want {
+                    return Err(Obs::Err(format!("first string of the pair decoded as {:?}", v.0)));
+                }
+                own(&v.1)
+            }
+            Dec::AfterEscStreamValue | Dec::LossyAfterEscStreamValue => {
+                let de = Deserializer::from_slice(text);
+                let de = if dec == Dec::LossyAfterEscStreamValue { de.utf8_lossy() } else { de };
+                let mut st = de.into_stream::<Value>();
+                let _ = st.next();
+                let v = e(st.next().ok_or(Obs::Err("stream ended".into()))?)?;
+                let a = v.as_array().ok_or(Obs::Err("not an array".into()))?;
+                if a.len() != 2 || a[0].as_str() != Some("k\tv") {
+                    return Err(Obs::Err(format!("unexpected shape {}", v)));
+                }
+                own(a[1].as_str().ok_or(Obs::Err("not a string".into()))?)
+            }
         })
     })();
     let _ = as_s;
@@ -285,7 +345,7 @@ pub fn expected(dec: Dec, lit: &[u8]) -> Option<Result<(String, Option<bool>), r
     let mode = if lossy { RMode::Lossy } else { RMode::Decode };
     // locate the string node inside the wrapper
     let root = match dec {
-        Dec::KeyInValueCopy | Dec::LossyStreamValue => {
+        Dec::KeyInValueCopy | Dec::LossyStreamValue | Dec::AfterEscStreamValue | Dec::LossyAfterEscStreamValue => {
             let first = refjson::parse_value_at(&text, 0, mode);
             match first {
                 Ok(n) => {
@@ -312,7 +372,9 @@ pub fn expected(dec: Dec, lit: &[u8]) -> Option<Result<(String, Option<bool>), r
         }
         // entry points that do not look behind the value they return
         Dec::GetLazy | Dec::GetUncheckedLazy => refjson::parse_value_at(&text, 5, mode),
-        Dec::LossyValue | Dec::LossyString | Dec::LossyKey => refjson::parse_value_at(&text, 0, mode),
+        Dec::LossyValue | Dec::LossyString | Dec::LossyKey | Dec::LossyAfterEscString | Dec::LossyAfterRepairedString => {
+            refjson::parse_value_at(&text, 0, mode)
+        }
         _ => refjson::parse_doc(&text, mode),
     };
     if matches!(dec, Dec::SkipPastChecked | Dec::SkipPastUnchecked | Dec::SkipPastObjUnchecked) {
@@ -351,7 +413,28 @@ pub fn expected(dec: Dec, lit: &[u8]) -> Option<Result<(String, Option<bool>), r
     };
     let node = match (&root.kind, dec) {
         (Kind::Str { .. }, Dec::GetLazy | Dec::GetUncheckedLazy) => &root,
-        (Kind::Str { .. }, d) if !matches!(d, Dec::FieldValue | Dec::FieldString | Dec::FieldCow | Dec::FieldStr | Dec::LazyField | Dec::KeyInValue | Dec::MapKey | Dec::LossyKey | Dec::KeyInValueCopy | Dec::OwnedLazyChild) => &root,
+        (Kind::Str { .. }, d)
+            if !matches!(
+                d,
+                Dec::FieldValue
+                    | Dec::FieldString
+                    | Dec::FieldCow
+                    | Dec::FieldStr
+                    | Dec::LazyField
+                    | Dec::KeyInValue
+                    | Dec::MapKey
+                    | Dec::LossyKey
+                    | Dec::KeyInValueCopy
+                    | Dec::OwnedLazyChild
+                    | Dec::AfterEscString
+                    | Dec::AfterEscStreamValue
+                    | Dec::LossyAfterEscString
+                    | Dec::LossyAfterRepairedString
+                    | Dec::LossyAfterEscStreamValue
+            ) =>
+        {
+            &root
+        }
         (Kind::Obj(m), Dec::KeyInValue | Dec::MapKey | Dec::LossyKey | Dec::KeyInValueCopy) => {
             if m.len() != 1 {
                 return Some(Err(refjson::Reason::Unexpected));
@@ -369,6 +452,15 @@ pub fn expected(dec: Dec, lit: &[u8]) -> Option<Result<(String, Option<bool>), r
                 return Some(Err(refjson::Reason::Unexpected));
             }
             &a[0]
+        }
+        (
+            Kind::Arr(a),
+            Dec::AfterEscString | Dec::AfterEscStreamValue | Dec::LossyAfterEscString | Dec::LossyAfterRepairedString | Dec::LossyAfterEscStreamValue,
+        ) => {
+            if a.len() != 2 {
+                return Some(Err(refjson::Reason::Unexpected));
+            }
+            &a[1]
         }
         _ => return Some(Err(refjson::Reason::Unexpected)),
     };
